@@ -39,15 +39,20 @@ def plan(tier, seed):
         for es in all_graphs(n):
             cases.append({"n": n, "edges": [list(e) for e in es]})
             trans += len(es)
+    ngraphs = len(cases)
+    for c in list(cases):
+        if c["n"] <= 3 and len(c["edges"]) >= 1:
+            cases.append(dict(c, mode="hist"))
     return {
         "cases": cases,
-        "states": len(cases),
+        "states": ngraphs,
         "transitions": trans,
         "chunk": 50 if tier != "thorough" else 400,
         "rule": (
             f"E1: every directed graph on {p['sizes']} nodes (self loops, nested cycles, several components, isolated nodes) built by G[i,j] = w; free edge indeterminates (Poly_D, D={p['D']}) and exact rationals (Q), Boolean, MaxTimes. "
             "closure_scc_based == closure_reference == closure() == sum_k A^k (own matrix-power sum modulo degree / exact (I-A)^-1 by own Gaussian elimination); solve_left(b) == b.A*, solve_right(b) == A*.b for an indeterminate right-hand side b (and unit vectors); "
             "blocks == the strongly connected components (own mutual-reachability partition), each node in exactly one block, every cross-component edge goes from an earlier to a later block; buckets consistent with blocks. "
+            "hist mode (E3): for every graph on <= 3 nodes, BFS over call histories of depth 2 on ONE graph object (solve_left, solve_right, closure_scc_based, closure_reference, blocks, Blocks) - every answer must equal a fresh object's. "
             "non-trivial = the graph has a cycle or at least two edges"
         ),
         "bounds": {k: v for k, v in p.items()},
@@ -119,7 +124,59 @@ def nz(chart, zero):
     return {k: v for k, v in chart.items() if v != zero}
 
 
+def run_hist(case):
+    """E3 on WeightedGraph objects: cached decomposition must not be disturbed by earlier calls."""
+    from vf import engine_hist as eh
+
+    n = case["n"]
+    edges = [tuple(e) for e in case["edges"]]
+    W = [Poly.var(k) for k in range(len(edges))]
+    bvars = {i: Poly.var(20 + i) for i in range(n)}
+
+    def bchart():
+        bc = Poly.chart()
+        for i, v in bvars.items():
+            bc[i] = v
+        return bc
+
+    ops = ["solve_left", "solve_right", "closure_scc_based", "closure_reference", "blocks", "Blocks"]
+
+    def apply_op(G, op):
+        try:
+            if op == "solve_left":
+                return ("chart", nz(dict(G.solve_left(bchart())), Poly.zero))
+            if op == "solve_right":
+                return ("chart", nz(dict(G.solve_right(bchart())), Poly.zero))
+            if op == "closure_scc_based":
+                return ("chart", nz(dict(G.closure_scc_based()), Poly.zero))
+            if op == "closure_reference":
+                return ("chart", nz(dict(G.closure_reference()), Poly.zero))
+            if op == "blocks":
+                return ("val", [sorted(b) for b in G.blocks])
+            return ("val", [(sorted(b), sorted((k, repr(v)) for k, v in dict(B).items() if v != Poly.zero)) for b, B in G.Blocks])
+        except CaseTimeout:
+            raise
+        except Exception as e:  # noqa: BLE001
+            return f"EXC {type(e).__name__}: {e}"
+
+    def dump(G):
+        d = G.__dict__
+        return tuple((k, repr(d[k]) if k in d else None) for k in ("blocks", "buckets", "Blocks")) + (tuple(sorted(map(repr, G.E.items()))), tuple(sorted(G.N)))
+
+    res = eh.explore(lambda: build(Poly, n, edges, W), ops, apply_op, dump, 2, lambda a, b: a == b)
+    fails = []
+    seen = set()
+    for hist, i, have, want in res["violations"]:
+        if ops[i] in seen:
+            continue
+        seen.add(ops[i])
+        fails.append(_fail("answer independent of earlier calls on the same graph object", {"n": n, "edges": case["edges"], "history": [ops[j] for j in hist], "query": ops[i]}, have, want))
+    return {"evals": res["transitions"], "nontrivial": int(len(edges) >= 2), "fails": fails, "counters": {"executions": res["transitions"], "hist_states": res["states"], "hist_transitions": res["transitions"]}}
+
+
 def run_case(case):
+    if case.get("mode") == "hist":
+        return run_hist(case)
     n = case["n"]
     edges = [tuple(e) for e in case["edges"]]
     inp0 = {"n": n, "edges": case["edges"]}
